@@ -47,13 +47,51 @@ def hashtable_part(ctx):
                           {"history": tr, "rejected_at": at})
 
 
+def thermo_part(ctx):
+    from .. import thermo_drv as TD
+    for system, alpha in (("alzr", TD.binary_alphabet()), ("nicral", TD.ternary_alphabet())):
+        memo = TD.memo_answers(system, alpha)
+        alpha = TD.stable_alphabet(alpha, memo)
+        hist = TD.gen_histories(ctx.rng, alpha, ctx.tier)
+        trs = [TD.run_history(system, h, memo) for h in hist]
+        import copy
+        can = copy.deepcopy(next(t for t in trs if any(e["e"] == "query" for e in t)))
+        for e in can:
+            if e["e"] == "query":
+                e["vsmemo"] = "gt"
+                break
+        reached, res = T.validate("ThermoCache", [], trs + [can], "thermocache_" + system)
+        ctx.add_tlc(res, "ThermoCache over %d query histories (%s, real pycalphad)" % (len(trs), system))
+        if res.violated or reached is None:
+            raise MachineryError("ThermoCache validation failed")
+        if not reached[-1]["fails"]:
+            raise MachineryError("binding self-test failed: corrupted query history accepted")
+        for h, ev, v in zip(hist, trs, reached):
+            ctx.replayed += len(ev) - 1
+            ctx.case({"sys": system, "h": [list(map(str, o)) for o in h]}, nontrivial=len(ev) > 2,
+                     sample={"system": system, "history": [list(map(str, o)) for o in h]} if len(ctx.samples) < 5 else None)
+            if v["l"] != len(ev) + 1:
+                ctx.violation("thermo:%s:trace-not-consumed" % system, "history not consumed: %s" % ev[min(v["l"], len(ev)) - 1], {"history": [list(map(str, o)) for o in h]})
+            for clause, at in v["fails"]:
+                e = ev[at - 1]
+                ctx.violation("thermo:%s:%s:%s" % (system, clause, e.get("kind", e.get("e"))), "%s history %s: %s at event %d %s" %
+                              (system, [o[1] if len(o) > 1 else o[0] for o in h], clause, at, e), {"history": [list(map(str, o)) for o in h], "event": e})
+
+
 def run(ctx, replay=None):
-    ctx.rule = ("HashTable.tla: TLC explores all enable/precision/clear/add/retrieve histories up to length 4; the real HashTable "
+    ctx.rule = ("ThermoCache.tla: on the real Al-Zr (binary) and Ni-Cr-Al (ternary) databases every ordered pair of queries (driving force, interfacial "
+                "composition alone and inside an array, interdiffusivity, tracer diffusivity, curvature factors, impingement) plus seeded histories of 3-6 "
+                "queries with removeCache on/off and clearCache calls is executed on one long-lived object; each answer must equal the answer of an object "
+                "with empty caches (rtol 1e-6), repeats must agree, arguments must be untouched, alone = inside an array. "
+                "HashTable.tla: TLC explores all enable/precision/clear/add/retrieve histories up to length 4; the real HashTable "
                 "executes all length-3 histories over a reduced alphabet plus seeded length 4-10 histories (binary and ternary "
                 "points, precisions 1,2,3,7 incl. int32-overflowing temperature keys) and HashTable_Trace.tla accepts each event "
                 "only if hit/miss, the returned value and the table size equal the specification's.")
-    ctx.assumptions = ["domain points have float keys equal to their exact keys (self-checked every run)"]
+    ctx.assumptions = ["domain points have float keys equal to their exact keys (self-checked every run)",
+                       "curvature/impingement queries restricted to points with positive driving force (documented fall-back elsewhere)",
+                       "answers compared with rtol 1e-6 (measured solver scatter <= 1e-9)"]
     hashtable_part(ctx)
+    thermo_part(ctx)
 
 
 if __name__ == "__main__":
